@@ -14,6 +14,10 @@ struct buffer {
 
 struct scanner {
 	int chr;
+	/* a character read ahead of chr and its location (see '..') */
+	int peekchr;
+	struct location peekloc;
+	bool haspeek;
 	bool usebuf;
 	bool sawspace;
 	FILE *file;
@@ -54,6 +58,12 @@ nextchar(struct scanner *s)
 
 	if (s->usebuf)
 		bufadd(&s->buf, s->chr);
+	if (s->haspeek) {
+		s->haspeek = false;
+		s->chr = s->peekchr;
+		s->loc = s->peekloc;
+		return;
+	}
 	for (;;) {
 		s->chr = getc(s->file);
 		if (s->chr == '\n') {
@@ -363,7 +373,10 @@ again:
 		oldloc = s->loc;
 		nextchar(s);
 		if (s->chr != '.') {
-			ungetc(s->chr, s->file);
+			/* keep the character and where it is: line splices may lie in between */
+			s->peekchr = s->chr;
+			s->peekloc = s->loc;
+			s->haspeek = true;
 			s->loc = oldloc;
 			s->chr = '.';
 			return TPERIOD;
@@ -425,6 +438,7 @@ scanfrom(const char *name, FILE *file)
 	s->buf.cap = 0;
 	s->usebuf = false;
 	s->sawspace = false;
+	s->haspeek = false;
 	s->loc.file = name;
 	s->loc.line = 1;
 	s->loc.col = 0;
